@@ -107,6 +107,8 @@ type Machine struct {
 	winChecked           map[*Term]bool
 	guards               map[interface{}]*guardInfo
 	guardOn              bool
+	isoOn                bool
+	iso                  map[interface{}]*isoRec
 	noSample             bool
 	dlogs                []*dlog
 	stdin, stdout        []value
